@@ -205,7 +205,7 @@ def merge_semantics(ctx):
             for i in g.ids_of(stmt_of(n)):
                 if not g.dominated(i, lambda x: x.id in sid):
                     bad.append(f"mutation `{norm(n, 40)}` is not dominated by the snapshot")
-    yield Ob("C03.R3", ["C03"], f"{pu.qual} | change verdict", not bad,
+    yield Ob("C03.R3", ["C03", "C15"], f"{pu.qual} | change verdict", not bad,
              "; ".join(bad[:3]) if bad else "returns point != deepcopy taken before every mutation", pu.loc())
     # Point.__eq__ compares all four slots (the verdict and C01 rely on it)
     eq = ctx.prog.func("Point.__eq__", "C03.R3")
